@@ -16,6 +16,8 @@ pub struct Corpus {
     /// per known type: ascending list of sizes that decode with a zero body
     pub ok_sizes: Vec<(u8, Vec<usize>)>,
     pub unknown_types: Vec<u8>,
+    /// kinds whose all-zero frame is refused: a frame with one valid code word in it that decodes
+    pub templates: Vec<(u8, Vec<u8>)>,
 }
 
 fn build_corpus(mode: SizeMode) -> Corpus {
@@ -37,6 +39,24 @@ fn build_corpus(mode: SizeMode) -> Corpus {
         }
         if sizes.is_empty() {
             c.unknown_types.push(t);
+            // a kind whose all-zero frame is refused may only want one valid code somewhere
+            // (a track, a vehicle): look for a template with a dictionary word at some offset
+            if t <= 70 || t >= 250 {
+                'search: for n in (8..=64usize).step_by(4) {
+                    for off in 2..n - 3 {
+                        for word in [&b"BL1\0"[..], b"XFG\0"] {
+                            let mut f = vec![0u8; n];
+                            f[0] = mode.size_byte(n);
+                            f[1] = t;
+                            f[off..off + 4].copy_from_slice(word);
+                            if ref_decode(mode, &f).is_pkt() {
+                                c.templates.push((t, f));
+                                break 'search;
+                            }
+                        }
+                    }
+                }
+            }
         } else {
             c.ok_sizes.push((t, sizes));
         }
@@ -79,6 +99,10 @@ pub fn ver_frame(mode: SizeMode, reqi: u8, insimver: u8, rng: &mut Rng) -> Vec<u
     f.extend_from_slice(&vb);
     let products: [&[u8]; 4] = [b"S3", b"DEMO", b"S2", b"S1"];
     let mut pb = rng.pick(&products).to_vec();
+    if rng.chance(1, 6) {
+        // a product name that fills the field (no terminator on the wire), or nearly
+        pb = (0..rng.usize(5, 6)).map(|_| *rng.pick(b"ABCDEFS3\t 9")).collect();
+    }
     pb.resize(6, 0);
     f.extend_from_slice(&pb);
     f.push(insimver);
@@ -193,6 +217,15 @@ pub fn gen_frame_raw(rng: &mut Rng, mode: SizeMode, mix: &FrameMix) -> Vec<u8> {
         let reqi = rng.byte();
         ver_frame(mode, reqi, v, rng)
     } else if pick(mix.known) {
+        if !c.templates.is_empty() && rng.chance(1, 12) {
+            // kinds that need a valid code somewhere: the template, sometimes with one byte changed
+            let mut f = rng.pick(&c.templates).1.clone();
+            if rng.chance(1, 2) {
+                let i = rng.usize(2, f.len() - 1);
+                f[i] = rng.byte();
+            }
+            return f;
+        }
         let (t, sizes) = rng.pick(&c.ok_sizes);
         let n = if rng.chance(3, 4) {
             sizes[0]
@@ -277,6 +310,22 @@ pub fn gen_frame(rng: &mut Rng, mode: SizeMode, mix: &FrameMix, stats: &mut GenS
         }
     }
     keepalive(mode)
+}
+
+/// An IS_ISI frame (what `handshake()` sends) that the codec accepts, for handshakes repeated in
+/// the middle of a session (to change flags or the interval).
+pub fn isi_frame(rng: &mut Rng, mode: SizeMode) -> Option<Vec<u8>> {
+    let mut f = vec![0u8; 44];
+    f[0] = mode.size_byte(44);
+    f[1] = 1;
+    f[2] = rng.byte();
+    f[8] = 9;
+    f[28] = b'x';
+    if ref_decode(mode, &f).is_pkt() {
+        Some(f)
+    } else {
+        None
+    }
 }
 
 /// Receive buffer capacity of both connection types (insim::DEFAULT_BUFFER_CAPACITY).
@@ -440,6 +489,12 @@ pub fn gen_out_frame(rng: &mut Rng, mode: SizeMode, stats: &mut GenStats) -> Vec
                         if ref_encode(mode, &p2).as_deref() == Ok(&b[..]) {
                             return b;
                         }
+                    }
+                    // an encoder whose output is not one frame by its own size byte must not be
+                    // able to talk its packets out of the workload: keep the packet, as the
+                    // frame it was decoded from (the oracles check the length on their own)
+                    if b.is_empty() || mode.announced(b[0]) != b.len() {
+                        return f;
                     }
                     stats.rejected_by_reference += 1;
                 },
